@@ -28,19 +28,34 @@ pub fn generate_queries(
     samples
 }
 
-pub fn queries_to_points(queries: &[Felt], stark_domains: &StarkDomains) -> Vec<Felt> {
+pub fn queries_to_points(
+    queries: &[Felt],
+    stark_domains: &StarkDomains,
+) -> Result<Vec<Felt>, DomainTooLarge> {
     let mut points = Vec::<Felt>::new();
 
     // Evaluation domains of size greater than 2**64 are not supported
-    assert!((stark_domains.log_eval_domain_size) <= MAX_DOMAIN_SIZE);
+    if stark_domains.log_eval_domain_size > MAX_DOMAIN_SIZE {
+        return Err(DomainTooLarge);
+    }
 
     // A 'log_eval_domain_size' bits index can be bit reversed using bit_reverse_u64 if it is
     // multiplied by 2**(64 - log_eval_domain_size) first.
     let shift = Felt::TWO.pow_felt(&(MAX_DOMAIN_SIZE - stark_domains.log_eval_domain_size));
 
     for query in queries {
-        let index: u64 = (query * shift).to_bigint().try_into().unwrap();
+        let index: u64 = (query * shift).to_bigint().try_into().map_err(|_| DomainTooLarge)?;
         points.push(FIELD_GENERATOR * stark_domains.eval_generator.pow(index.reverse_bits()))
     }
-    points
+    Ok(points)
+}
+
+// The evaluation domain (or a query index) does not fit in 64 bits.
+#[derive(Debug, Clone, Copy, PartialEq, Eq)]
+pub struct DomainTooLarge;
+
+impl core::fmt::Display for DomainTooLarge {
+    fn fmt(&self, f: &mut core::fmt::Formatter<'_>) -> core::fmt::Result {
+        write!(f, "evaluation domains of size greater than 2**64 are not supported")
+    }
 }
